@@ -8,7 +8,8 @@ import time
 
 from math import floor
 from itertools import compress, accumulate, islice
-from operator import mul,add
+from operator import mul,add,lt
+from functools import partial
 from typing import Optional, Iterable, Sequence, Union, Tuple, Any
 
 class CobaRandom:
@@ -160,7 +161,8 @@ class CobaRandom:
         else:
             tot = sum(weights)
             if tot == 0: raise ValueError("The sum of weights cannot be zero.")
-            return next(compress(seq, map((next(self._randu)*tot).__lt__, accumulate(weights))))
+            #lt rather than float.__lt__ because the latter answers NotImplemented (truthy) for weights that are not floats or ints
+            return next(compress(seq, map(partial(lt,next(self._randu)*tot), accumulate(weights))))
 
     def choicew(self, seq: Sequence[Any], weights:Sequence[float] = None) -> Tuple[Any,float]:
         """Choose a random item from the given sequence.
